@@ -36,7 +36,7 @@ COMPONENTS = {
 }
 PROBES = ["card skipped by sampler (all its contests finished)", "card listing no contest", "phantom sampled",
           "contest with n_c=0", "contest taking every card", "records returned out of order",
-          "two contests share threshold card"]
+          "two contests share threshold card", "continued call added cards"]
 
 
 class SchedPrng:
@@ -113,7 +113,17 @@ def generate(rng, tier):
             sizes[cid] = avail
         else:
             sizes[cid] = rng.randint(0, avail)
-    return {"contests": contests, "cards": cards, "alt": alt, "numbering": numbering, "sizes": sizes,
+    # further calls that continue from the cards already selected (sizes never shrink)
+    nxt = []
+    cur = dict(sizes)
+    for _ in range(rng.randint(0, 2)):
+        cur = dict(cur)
+        for cid in cids:
+            avail = sum(1 for c in cards if cid in c["votes"])
+            if rng.chance(0.6):
+                cur[cid] = min(avail, cur[cid] + rng.randint(0, max(1, avail // 2)))
+        nxt.append(cur)
+    return {"contests": contests, "cards": cards, "alt": alt, "numbering": numbering, "sizes": sizes, "sizes_next": nxt,
             "pipeline": rng.chance(0.35), "return_order": rng.perm(ncards), "mvr_from_alt": rng.chance(0.5)}
 
 
@@ -215,6 +225,46 @@ def execute(case):
     flags = [i for i, c in enumerate(cvrs) if c.sampled]
     if sorted(flags) != sorted(set(ref_idx)):
         out.violate("C07.c", "sampled-flag", f"sampled flags on {flags}, selection {ref_idx}")
+
+    # ---- C07.g the same holds when the call continues from the cards selected so far
+    if idx == ref_idx:
+        prev = list(idx)
+        thr0 = {cid: con.sample_threshold for cid, con in contests.items()}
+        flags0 = [c.sampled for c in cvrs]
+        for step, sz in enumerate(case.get("sizes_next", [])):
+            for cid, con in contests.items():
+                con.sample_size = sz[cid]
+            r_idx, r_thr, _r_per = reference(cards, nums, sz)
+            out.units["sampler_calls"] += 1
+            try:
+                got = [int(i) for i in ns.CVR.consistent_sampling(cvr_list=cvrs, contests=contests, sampled_cvr_indices=list(prev))]
+            except Exception as e:
+                out.raised("consistent_sampling(continue)", e)
+                out.violate("C07.g", f"continue/raised-{type(e).__name__}", f"continuing from {prev} to sizes {sz} raised {e!r}")
+                break
+            out.ev("continued", got)
+            out.shape("continue")
+            if len(got) > len(prev):
+                out.nontrivial = True
+                out.probe("continued call added cards")
+            if got != r_idx:
+                out.violate("C07.g", "continue/selection" if sorted(got) != sorted(r_idx) else "continue/order",
+                            f"continuing from {prev} to sizes {sz} selected {got}; the union of per-contest prefixes is {r_idx}")
+                break
+            bad_thr = [c for c in r_thr if contests[c].sample_threshold != r_thr[c]]
+            if bad_thr:
+                out.violate("C07.g", "continue/threshold", f"after continuing to sizes {sz} the threshold of {bad_thr[0]} is "
+                                                           f"{contests[bad_thr[0]].sample_threshold}, its n-th card has {r_thr[bad_thr[0]]}")
+                break
+            if sorted(i for i, c in enumerate(cvrs) if c.sampled) != sorted(r_idx):
+                out.violate("C07.g", "continue/sampled-flag", "sampled flags do not match the continued selection")
+                break
+            prev = got
+        for cid, con in contests.items():  # back to the state after the first call (clauses e, f look at it)
+            con.sample_size = sizes[cid]
+            con.sample_threshold = thr0[cid]
+        for c, f in zip(cvrs, flags0):
+            c.sampled = f
 
     # ---- C07.d numbering is a function of (seed, position) only
     if case["numbering"]["mode"] in ("sha256", "sched"):
@@ -318,6 +368,10 @@ def _clamp(case):
     for cid in case["sizes"]:
         avail = sum(1 for c in case["cards"] if cid in c["votes"])
         case["sizes"][cid] = min(case["sizes"][cid], avail)
+        lo = case["sizes"][cid]
+        for sz in case.get("sizes_next", []):
+            sz[cid] = max(lo, min(sz[cid], avail))
+            lo = sz[cid]
     return case
 
 
@@ -334,6 +388,10 @@ def reducers(case):
             del c["numbering"]["numbers"][i]
         c["return_order"] = [j for j in c["return_order"] if j < n - 1]
         yield _clamp(c)
+    for j in reversed(range(len(case.get("sizes_next", [])))):
+        c = copy.deepcopy(case)
+        del c["sizes_next"][j]
+        yield c
     # drop a contest
     for cid in list(case["contests"]):
         if len(case["contests"]) <= 1:
@@ -341,6 +399,8 @@ def reducers(case):
         c = copy.deepcopy(case)
         del c["contests"][cid]
         del c["sizes"][cid]
+        for sz in c.get("sizes_next", []):
+            sz.pop(cid, None)
         for lst in (c["cards"], c["alt"]):
             for card in lst:
                 card["votes"].pop(cid, None)
@@ -350,7 +410,7 @@ def reducers(case):
         if s > 0:
             c = copy.deepcopy(case)
             c["sizes"][cid] = s - 1
-            yield c
+            yield _clamp(c)
     # simpler numbering
     if case["numbering"]["mode"] != "direct":
         ns = R.load()
